@@ -159,7 +159,8 @@ func runC04(p *core.Prog, r *core.Report) {
 		for _, sd := range sends {
 			in := false
 			for _, l := range core.Loops(fn) {
-				if d, _ := l.InductionDir(); d == 1 && l.Body[sd.Block()] {
+				site := core.SiteIn(fn, sd) // the send itself, or the call of the helper that sends
+				if d, _ := l.InductionDir(); d == 1 && site != nil && l.Body[site.Block()] {
 					in = true
 				}
 			}
@@ -338,8 +339,8 @@ func runC04(p *core.Prog, r *core.Report) {
 			n++
 			r.Check(core.ErrorTested(c), "C04.R3", fmt.Sprintf("processBlock/handleStepNew#%d", n), "the error of handleStepNew is tested and a non-EOF error is returned at once", "error not tested", p.Pos(c.Pos()))
 		}
-		if n != 2 {
-			core.Undecide("processBlock: expected two handleStepNew calls, found %d", n)
+		if n == 0 {
+			core.Undecide("processBlock: no handleStepNew call found")
 		}
 		// EOF is remembered and returned at the end; handleStepFinal still runs for a new-irreversible step
 		okFinal := false
@@ -499,7 +500,7 @@ func runC04(p *core.Prog, r *core.Report) {
 
 	r.MinInstances("C04.R1", 9)
 	r.MinInstances("C04.R2", 5)
-	r.MinInstances("C04.R3", 4)
+	r.MinInstances("C04.R3", 3)
 	checkTier1StreamBounds(p, r, "C04.R6")
 	r.Guard("C04.R1", "walker-protocol", "one download at a time, every segment once", func() { checkWalkerProtocol(p, r, "C04.R1") })
 	r.MinInstances("C04.R4", 7)
